@@ -68,6 +68,10 @@ func (s *Scheduler) Schedule(g *ExecutionGraph) error {
 				continue
 			}
 
+			// a pipeline included by several stages is scheduled by each of them: only one may start the stage
+			if !atomic.CompareAndSwapInt32(&stage.Status, StatusWaiting, StatusRunning) {
+				continue
+			}
 			wg.Add(1)
 			stage.UpdateStatus(StatusRunning)
 			go func(stage *Stage) {
@@ -80,6 +84,11 @@ func (s *Scheduler) Schedule(g *ExecutionGraph) error {
 
 				err := s.runStage(stage)
 				if err != nil {
+					if !stage.AllowFailure {
+						// recorded before the status is published: another scheduler that drives the same
+						// graph (a pipeline included by several stages) sees the error once it sees the stage finished
+						g.error = err
+					}
 					stage.UpdateStatus(StatusError)
 
 					if !stage.AllowFailure {
